@@ -70,6 +70,37 @@ pub fn check_position(ctx: &mut Ctx, s: &Step, full_sweep_one_in: u64) -> Result
             .collect();
         ctx.fail(sig, what, s.case_with(json!({"library_moves": mvs(&got), "rules_moves": mvs(&legal), "second_derivation": second})))?;
     }
+    // 1b. the same position as produced by the other ways of obtaining it: both move-application
+    // entry points (the generator trusts the cached check / pin data they compute), and - for one
+    // position in four - null moves and the deprecated editing API
+    {
+        let mut variants: Vec<(Pos, Board, String)> = vec![];
+        if let Some((_, pb, m)) = s.prev {
+            variants.push((p.clone(), pb.make_move_new(bridge::mv(m)), "make_move_new".into()));
+            variants.push((p.clone(), bridge::make_in_place(pb, bridge::mv(m), b), "make_move (in place)".into()));
+        }
+        if pfp % 4 == 1 {
+            variants.extend(super::editapi::other_ways(p, b, 2));
+        }
+        for (vp, vb, how) in variants {
+            ctx.evals_add(1);
+            let mut want = vp.legal_moves();
+            want.sort();
+            let mut got = bridge::lib_moves(&vb);
+            got.sort();
+            let l = MoveGen::new_legal(&vb).len();
+            if got != want || l != want.len() {
+                let missing: Vec<Mv> = want.iter().copied().filter(|m| !got.contains(m)).collect();
+                let extra: Vec<Mv> = got.iter().copied().filter(|m| !want.contains(m)).collect();
+                let sig = if !missing.is_empty() { "movegen:missing-move" } else if !extra.is_empty() { "movegen:extra-move" } else { "movegen:len" };
+                ctx.fail(
+                    sig,
+                    format!("position {:?} obtained through {}: missing {:?}, extra {:?}, len() = {} for {} legal moves", vp.fen(), how, mvs(&missing), mvs(&extra), l, want.len()),
+                    s.case_with(json!({"obtained_through": how, "position_checked": vp.fen()})),
+                )?;
+            }
+        }
+    }
     // 2. fresh len()
     let l = MoveGen::new_legal(b).len();
     if l != legal.len() {
